@@ -85,41 +85,48 @@ int main(int argc,char **argv){
           if(bs!=lk0)break;
           for(int c=0;c<ch1&&c<MAXCH;c++)memcpy(pO[c]+m,p[c],r*sizeof(float)); m+=r; }
         if(lk0==-2&&oldrs!=4){ vorbis_info *ovi=ov_info(&C.vf,-1); ch1=ovi->channels; n1=vorbis_info_blocksize(ovi,0)>>(1+hs); } }
-      int rcA,rcB;
-      if(!strcmp(kind,"pl")){ rcA=ov_pcm_seek_lap(&A.vf,(ogg_int64_t)target); rcB=ov_pcm_seek(&B.vf,(ogg_int64_t)target); }
-      else if(!strcmp(kind,"ppl")){ rcA=ov_pcm_seek_page_lap(&A.vf,(ogg_int64_t)target); rcB=ov_pcm_seek_page(&B.vf,(ogg_int64_t)target); }
-      else if(!strcmp(kind,"rl")){ rcA=ov_raw_seek_lap(&A.vf,(ogg_int64_t)target); rcB=ov_raw_seek(&B.vf,(ogg_int64_t)target); }
-      else if(!strcmp(kind,"tl")){ rcA=ov_time_seek_lap(&A.vf,target); rcB=ov_time_seek(&B.vf,target); }
-      else { rcA=ov_time_seek_page_lap(&A.vf,target); rcB=ov_time_seek_page(&B.vf,target); }
+      int rcA,rcB; int iscl=!strcmp(kind,"cl"); H D,D2; OggVorbis_File *LA=&A.vf,*LB=&B.vf;
+      if(iscl){
+        /* ov_crosslap(A,D): A stays at the old position and supplies the lapping data, D is a fresh handle sought to the target;
+           D2 is D's plain twin.  What is compared is D against D2, exactly as a lapped seek against the plain seek. */
+        if(hopen(&D,file,n,hs)||hopen(&D2,file,n,hs)){ printf("open failed\n"); break; }
+        LA=&D.vf; LB=&D2.vf;
+      }
+      if(!strcmp(kind,"pl")){ rcA=ov_pcm_seek_lap(LA,(ogg_int64_t)target); rcB=ov_pcm_seek(LB,(ogg_int64_t)target); }
+      else if(!strcmp(kind,"ppl")){ rcA=ov_pcm_seek_page_lap(LA,(ogg_int64_t)target); rcB=ov_pcm_seek_page(LB,(ogg_int64_t)target); }
+      else if(!strcmp(kind,"rl")){ rcA=ov_raw_seek_lap(LA,(ogg_int64_t)target); rcB=ov_raw_seek(LB,(ogg_int64_t)target); }
+      else if(!strcmp(kind,"tl")){ rcA=ov_time_seek_lap(LA,target); rcB=ov_time_seek(LB,target); }
+      else if(iscl){ rcB=ov_pcm_seek(LB,(ogg_int64_t)target); rcA=ov_pcm_seek(LA,(ogg_int64_t)target); if(!rcA)rcA=ov_crosslap(&A.vf,LA); }
+      else { rcA=ov_time_seek_page_lap(LA,target); rcB=ov_time_seek_page(LB,target); }
       printf("T %s pre=%ld read=%ld target=%.9g | rcA %d rcB %d tellA %ld tellB %ld oldlink %d oldrs %d m %ld n1 %ld\n",kind,pre,preread,target,rcA,rcB,
-             (long)ov_pcm_tell(&A.vf),(long)ov_pcm_tell(&B.vf),oldlink,oldrs,m,n1);
+             (long)ov_pcm_tell(LA),(long)ov_pcm_tell(LB),oldlink,oldrs,m,n1);
       if(rcB!=0){ if(rcA==0){ printf("prop lapfails FAIL plain=%d lapped=0\n",rcB); bad++; }
         /* bring the handles back to a common position */
-        ov_pcm_seek(&A.vf,0); ov_pcm_seek(&B.vf,0); if(nh<510){ strcpy(hist[nh].kind,"z"); hist[nh].pre=-1; hist[nh].preread=0; hist[nh].k=0; nh++; } }
+        ov_pcm_seek(LA,0); ov_pcm_seek(LB,0); if(nh<510){ strcpy(hist[nh].kind,"z"); hist[nh].pre=-1; hist[nh].preread=0; hist[nh].k=0; nh++; } }
       else if(rcA!=0){
         /* additionally EOF, only when there is nothing to lap */
         /* does audio follow the target within the link the seek landed in?  (the lap code never spans links) */
-        int landlink=(B.vf.ready_state>=3)?B.vf.current_link:-1;
-        float **p; int bs=-1; long r=ov_read_float(&B.vf,&p,1,&bs);
+        int landlink=(LB->ready_state>=3)?LB->current_link:-1;
+        float **p; int bs=-1; long r=ov_read_float(LB,&p,1,&bs);
         /* "the handle has no decode state and is at end of stream": with a decoder set up (ready_state INITSET) the lap
            data can always be taken (from pending samples or the decoder's overlap half), so EOF is not excused then */
         int nothing_follows=(r<=0)||(landlink>=0&&bs!=landlink), no_state_at_end=(m==0&&oldrs!=4);
         if(rcA!=OV_EOF||!(nothing_follows||no_state_at_end)){ printf("prop lapeof FAIL rcA=%d follows=%d m=%ld\n",rcA,!nothing_follows,m); bad++; }
         eofs++;
         /* resynchronise */
-        ov_pcm_seek(&A.vf,0); ov_pcm_seek(&B.vf,0); if(nh<510){ strcpy(hist[nh].kind,"z"); hist[nh].pre=-1; hist[nh].preread=0; hist[nh].k=0; nh++; }
-        continue;
+        ov_pcm_seek(LA,0); ov_pcm_seek(LB,0); if(nh<510){ strcpy(hist[nh].kind,"z"); hist[nh].pre=-1; hist[nh].preread=0; hist[nh].k=0; nh++; }
+        goto test_done;
       }else{
         lapped++;
-        if(ov_pcm_tell(&A.vf)!=ov_pcm_tell(&B.vf)){ printf("prop lapland FAIL %ld %ld\n",(long)ov_pcm_tell(&A.vf),(long)ov_pcm_tell(&B.vf)); bad++; }
-        vorbis_info *nvi=ov_info(&B.vf,-1); int ch2=nvi?nvi->channels:0; long n2=nvi?vorbis_info_blocksize(nvi,0)>>(1+hs):0;
+        if(ov_pcm_tell(LA)!=ov_pcm_tell(LB)){ printf("prop lapland FAIL %ld %ld\n",(long)ov_pcm_tell(LA),(long)ov_pcm_tell(LB)); bad++; }
+        vorbis_info *nvi=ov_info(LB,-1); int ch2=nvi?nvi->channels:0; long n2=nvi?vorbis_info_blocksize(nvi,0)>>(1+hs):0;
         /* B may not be primed yet: the new link is known after the first read */
         /* prime B (zero-length read) to see how many samples are pending at the landing position */
-        long pendB=0; { float **p0; int b0=-1; ov_read_float(&B.vf,&p0,0,&b0); if(B.vf.ready_state==4)pendB=vorbis_synthesis_pcmout(&B.vf.vd,NULL); }
+        long pendB=0; { float **p0; int b0=-1; ov_read_float(LB,&p0,0,&b0); if(LB->ready_state==4)pendB=vorbis_synthesis_pcmout(&LB->vd,NULL); }
         int lkA=-1,lkB=-1; long K=2000;
         memset(bufA,0,sizeof bufA); memset(bufB,0,sizeof bufB);   /* links differ in channel count: unused channels compare as zero */
-        long ga=readn(&A.vf,pA,MAXCH,K,&lkA,0), gb=readn(&B.vf,pB,MAXCH,K,&lkB,0);
-        if(lkB>=0){ nvi=ov_info(&B.vf,lkB); ch2=nvi->channels; n2=vorbis_info_blocksize(nvi,0)>>(1+hs); }
+        long ga=readn(LA,pA,MAXCH,K,&lkA,0), gb=readn(LB,pB,MAXCH,K,&lkB,0);
+        if(lkB>=0){ nvi=ov_info(LB,lkB); ch2=nvi->channels; n2=vorbis_info_blocksize(nvi,0)>>(1+hs); }
         long nn=n1<n2?n1:n2;
         if(ga!=gb||lkA!=lkB){ printf("prop lapcount FAIL %ld %ld links %d %d\n",ga,gb,lkA,lkB); bad++; }
         else{
@@ -130,7 +137,7 @@ int main(int argc,char **argv){
           if(m==n1&&ga>=nn){
             /* window table: identical for equal sizes; take it from whichever handle has that size ready */
             const float *w=NULL;
-            if(B.vf.ready_state==4&&(vorbis_info_blocksize(ov_info(&B.vf,-1),0)>>(1+hs))==nn)w=vorbis_window(&B.vf.vd,0);
+            if(LB->ready_state==4&&(vorbis_info_blocksize(ov_info(LB,-1),0)>>(1+hs))==nn)w=vorbis_window(&LB->vd,0);
             if(!w&&C.vf.ready_state==4&&(vorbis_info_blocksize(ov_info(&C.vf,-1),0)>>(1+hs))==nn)w=vorbis_window(&C.vf.vd,0);
             if(w){
               int okin=1,late=0; formula++;
@@ -146,7 +153,13 @@ int main(int argc,char **argv){
             }
           }
         }
-        if(nh>0)hist[nh-1].k=K;       /* A asked for K samples after its lapped seek (the same CALLS must be replayed) */
+        if(nh>0&&!iscl)hist[nh-1].k=K;       /* A asked for K samples after its lapped seek (the same CALLS must be replayed) */
+      }
+      test_done:
+      if(iscl){
+        /* A gave its lapping data away (read behind the reported position): bring A and B back to a common state */
+        ov_clear(&D.vf); ov_clear(&D2.vf);
+        ov_pcm_seek(&A.vf,0); ov_pcm_seek(&B.vf,0); if(nh<510){ strcpy(hist[nh].kind,"z"); hist[nh].pre=-1; hist[nh].preread=0; hist[nh].k=0; nh++; }
       }
     }
     printf("S tests=%ld lapped=%ld formula=%ld eofs=%ld total=%ld\n",tests,lapped,formula,eofs,total);
